@@ -36,6 +36,7 @@ THE SOFTWARE.
 #include <fstream>
 #include <sstream>
 #include <numeric>
+#include <limits>
 
 #include <type_traits>
 #include <tuple>
@@ -157,10 +158,14 @@ class mm_reader {
                 precondition(is >> n >> m >> nnz, format_error());
             }
 
+            precondition(n >= 0 && m >= 0, format_error("negative matrix size"));
+            precondition(!_symmetric || n == m,
+                    format_error("symmetric matrix is not square"));
+
             if (row_beg < 0) row_beg = 0;
             if (row_end < 0) row_end = n;
 
-            precondition(row_beg >= 0 && row_end <= n,
+            precondition(row_beg >= 0 && row_beg <= row_end && row_end <= n,
                     "Wrong subset of rows is requested");
 
             ptrdiff_t _nnz = _symmetric ? 2 * nnz : nnz;
@@ -174,7 +179,7 @@ class mm_reader {
 
             ptrdiff_t chunk = row_end - row_beg;
 
-            ptr.resize(chunk + 1); std::fill(ptr.begin(), ptr.end(), 0);
+            ptr.resize(static_cast<size_t>(chunk) + 1); std::fill(ptr.begin(), ptr.end(), 0);
 
             for(size_t k = 0; k < nnz; ++k) {
                 precondition(std::getline(f, line), format_error("unexpected eof"));
@@ -184,6 +189,13 @@ class mm_reader {
                 Val v;
 
                 precondition(is >> i >> j, format_error());
+
+                // Indices in the file are 1-based and have to address
+                // an entry of the n x m matrix.
+                precondition(
+                        i >= 1 && static_cast<ptrdiff_t>(i) <= n &&
+                        j >= 1 && static_cast<ptrdiff_t>(j) <= m,
+                        format_error("index out of range"));
 
                 i -= 1;
                 j -= 1;
@@ -230,7 +242,7 @@ class mm_reader {
                 Idx beg = ptr[i];
                 Idx end = ptr[i+1];
 
-                amgcl::detail::sort_row(&col[0] + beg, &val[0] + beg, end - beg);
+                amgcl::detail::sort_row(col.data() + beg, val.data() + beg, end - beg);
             }
 
             return std::make_tuple(chunk, m);
@@ -265,11 +277,17 @@ class mm_reader {
                 precondition(is >> n >> m, format_error());
             }
 
+            precondition(n >= 0 && m >= 0, format_error("negative matrix size"));
+
             if (row_beg < 0) row_beg = 0;
             if (row_end < 0) row_end = n;
 
-            precondition(row_beg >= 0 && row_end <= n,
+            precondition(row_beg >= 0 && row_beg <= row_end && row_end <= n,
                     "Wrong subset of rows is requested");
+
+            precondition(
+                    m == 0 || n <= std::numeric_limits<ptrdiff_t>::max() / m,
+                    format_error("matrix is too large"));
 
             val.resize((row_end - row_beg) * m);
 
